@@ -9,7 +9,7 @@ Local Open Scope nat_scope.
 
 (* ---------------------------------------------------------------- the raw (lxml) view *)
 Inductive raw_content :=
-| RC (name : option str) (type : str) (occur : str) (left right : option raw_content).
+| RC (name : option str) (type : str) (occur : str) (lft rgt : option raw_content).
 
 Record raw_attr := mk_raw_attr {
   ra_prefix : option str;
@@ -60,9 +60,9 @@ Definition opt_list {A} (o : option A) : list A := match o with Some x => [x] | 
 (* children particle of a content declaration; #PCDATA contributes no child *)
 Fixpoint cm_of_raw (c : raw_content) : option cm :=
   match c with
-  | RC name type occur left right =>
+  | RC name type occur lft rgt =>
       let kids :=
-        match left, right with
+        match lft, rgt with
         | Some l, Some r => match cm_of_raw l, cm_of_raw r with Some a, Some b => Some [a; b] | _, _ => None end
         | Some l, None => option_map (fun a => [a]) (cm_of_raw l)
         | None, Some r => option_map (fun a => [a]) (cm_of_raw r)
